@@ -43,6 +43,33 @@ func (t *c10ModelTable) Size() uint32             { return 0 }
 func (t *c10ModelTable) FromBytes(b []byte)       {}
 func (t *c10ModelTable) Bytes() []byte            { return nil }
 
+// c10LaneDev is a device whose byte at address a is byte number `lane` of a (lane arbitrary, 0..7).
+// A reader that fetches a byte from a wrong address therefore delivers a wrong byte in at least
+// one lane: comparing delivered bytes for every lane compares the full 64-bit addresses, without
+// uninterpreted functions in the solver queries.
+type c10LaneDev struct {
+	*vpdev.MemDev
+	lane uint
+}
+
+func (d *c10LaneDev) ByteAt(a int64) byte { return byte(uint64(a) >> (8 * d.lane)) }
+
+func (d *c10LaneDev) ReadAt(p []byte, off int64) (int, error) {
+	if off < 0 {
+		return 0, io.ErrUnexpectedEOF
+	}
+	vp.FillFunc(p, func(i int) byte { return d.ByteAt(off + int64(i)) })
+	return len(p), nil
+}
+
+func c10NewLaneDev() *c10LaneDev {
+	m := vpdev.NewMemDev("disk", -1)
+	m.NoWrites = true
+	lane := uint(vp.U8("lane"))
+	vp.Assume(lane < 8)
+	return &c10LaneDev{MemDev: m, lane: lane}
+}
+
 const (
 	c10Fat12Real = iota // the real fat12Table, 12 entries, every entry arbitrary
 	c10FatModel         // the interface stub above, cluster numbers up to 2^28
@@ -50,10 +77,8 @@ const (
 
 // c10FatFS builds a filesystem whose geometry is arbitrary and whose table holds a chain of
 // exactly L clusters starting at the returned first cluster. chain[i] is the harness's own walk.
-func c10FatFS(kind, L, bpc int) (*FileSystem, *vpdev.MemDev, []uint32) {
-	dev := vpdev.NewMemDev("disk", -1)
-	dev.UF = true
-	dev.NoWrites = true
+func c10FatFS(kind, L, bpc int) (*FileSystem, *c10LaneDev, []uint32) {
+	dev := c10NewLaneDev()
 	chain := make([]uint32, L)
 	var tbl FATTable
 	switch kind {
@@ -116,11 +141,11 @@ func c10FatPos(fs *FileSystem, chain []uint32, bpc int, p int64) int64 {
 	for i := 1; i < len(chain); i++ {
 		cl = vp.IteU32(idx == int64(i), chain[i], cl)
 	}
-	return fs.start + int64(fs.dataStart) + (int64(cl)-2)*int64(bpc) + int64(uint64(p)%uint64(bpc))
+	return fs.start + int64(fs.dataStart) + int64(cl-2)*int64(bpc) + int64(uint64(p)%uint64(bpc))
 }
 
 // c10FatRead: Read into a buffer of arbitrary length 0..N from an arbitrary cursor.
-func c10FatRead(kind, L, bpc, N int, content bool) {
+func c10FatRead(kind, L, bpc, N int) {
 	fs, dev, chain := c10FatFS(kind, L, bpc)
 	size := vp.U32("size")
 	vp.Assume(int64(size) <= int64(L)*int64(bpc))
@@ -157,23 +182,11 @@ func c10FatRead(kind, L, bpc, N int, content bool) {
 
 	vp.AssertUnless("KF-C10-1", kf1, int64(n) == want, "n = min(len(b), bytes remaining)")
 	vp.AssertUnless("KF-C10-1", kf1, fl.offset == off+want, "cursor advances by the bytes delivered")
-	if content {
-		for i := 0; i < N; i++ {
-			if int64(i) < want {
-				vp.Assert(buf[i] == dev.ByteAt(c10FatPos(fs, chain, bpc, off+int64(i))), "delivered byte = file byte at cursor+i")
-			} else {
-				vp.AssertUnless("KF-C10-1", kf1, buf[i] == orig[i], "buffer beyond n is untouched")
-			}
-		}
-	} else {
-		// real cluster sizes: one arbitrary index stands for all of them
-		j := vp.Int("probe")
-		vp.Assume(j >= 0)
-		vp.Assume(j < N)
-		if int64(j) < want {
-			vp.Assert(buf[j] == dev.ByteAt(c10FatPos(fs, chain, bpc, off+int64(j))), "delivered byte = file byte at cursor+j (any j)")
+	for i := 0; i < N; i++ {
+		if int64(i) < want {
+			vp.Assert(buf[i] == dev.ByteAt(c10FatPos(fs, chain, bpc, off+int64(i))), "delivered byte = file byte at cursor+i")
 		} else {
-			vp.AssertUnless("KF-C10-1", kf1, buf[j] == orig[j], "buffer beyond n is untouched (any j)")
+			vp.AssertUnless("KF-C10-1", kf1, buf[i] == orig[i], "buffer beyond n is untouched")
 		}
 	}
 	if err == io.EOF {
@@ -204,23 +217,24 @@ func c10FatRead(kind, L, bpc, N int, content bool) {
 	}
 }
 
-// content mode: cluster = 4 bytes, buffer up to 2 clusters + 1, every delivered byte compared.
-func VP_C10_fat_read_fat12_L1() { c10FatRead(c10Fat12Real, 1, 4, 9, true) }
-func VP_C10_fat_read_fat12_L2() { c10FatRead(c10Fat12Real, 2, 4, 9, true) }
-func VP_C10_fat_read_fat12_L3() { c10FatRead(c10Fat12Real, 3, 4, 9, true) }
+// small mode: cluster = 4 bytes, buffer up to 2 clusters + 1 (all relative positions of cursor,
+// cluster boundary, buffer end and file end occur).
+func VP_C10_fat_read_fat12_L1() { c10FatRead(c10Fat12Real, 1, 4, 9) }
+func VP_C10_fat_read_fat12_L2() { c10FatRead(c10Fat12Real, 2, 4, 9) }
+func VP_C10_fat_read_fat12_L3() { c10FatRead(c10Fat12Real, 3, 4, 9) }
 func VP_C10_fat_read_fat12_L4() {
 	if vp.Thorough() {
-		c10FatRead(c10Fat12Real, 4, 4, 13, true)
+		c10FatRead(c10Fat12Real, 4, 4, 13)
 	}
 }
-func VP_C10_fat_read_model_L1() { c10FatRead(c10FatModel, 1, 4, 9, true) }
-func VP_C10_fat_read_model_L3() { c10FatRead(c10FatModel, 3, 4, 9, true) }
+func VP_C10_fat_read_model_L1() { c10FatRead(c10FatModel, 1, 4, 9) }
+func VP_C10_fat_read_model_L3() { c10FatRead(c10FatModel, 3, 4, 9) }
 
-// arithmetic mode: real cluster sizes, cluster numbers up to 2^28, one arbitrary probe index.
-func VP_C10_fat_read_arith_512()  { c10FatRead(c10FatModel, 3, 512, 2*512+1, false) }
+// real cluster sizes, cluster numbers up to 2^28.
+func VP_C10_fat_read_arith_512()  { c10FatRead(c10FatModel, 3, 512, 2*512+1) }
 func VP_C10_fat_read_arith_32k() {
 	if vp.Thorough() {
-		c10FatRead(c10FatModel, 3, 32768, 2*32768+1, false)
+		c10FatRead(c10FatModel, 3, 32768, 2*32768+1)
 	}
 }
 
